@@ -661,6 +661,12 @@ def check_no_cached_state(ctx, rule="IOAGREE", modules=("droplets.droplets", "dr
             last = (d or "").split(".")[-1]
             if last in ("cached_property", "lru_cache", "cache", "memoize", "cached"):
                 bad.append((fi, d))
+        # a hand-written memo: a query (get_…, a property getter) that stores a result on the instance
+        if (fi.name.startswith("get_") or fi.kind == "property") and fi.kind != "setter":
+            for t_ in ast.walk(fi.node):
+                if isinstance(t_, ast.Attribute) and isinstance(t_.ctx, ast.Store) and isinstance(t_.value, ast.Name) and t_.value.id == "self":
+                    bad.append((fi, f"self.{t_.attr} = … (a result kept on the instance)"))
+                    break
     ctx.decide(not bad, rule, "mutable-classes:no-cache", bad[0][0] if bad else None,
                f"no method or property of the droplet/emulsion/track classes is memoised ({n} examined)",
                f"`{bad[0][0].qualname if bad else ''}` is decorated with `{bad[0][1] if bad else ''}`: its value is computed once and kept although the object can be edited in place "
